@@ -119,10 +119,14 @@ def make_workload(seed, n_records=None, max_records=24, fat=0.0, long_reads=None
             # a long optional field is copied into the output record verbatim: result messages larger
             # than PIPE_BUF (4096), than Connection's 16 KiB header/body split and than the pipe itself
             tags.append("zz:Z:" + "Q" * rng.choice([4200, 6000, 17000, 20000, 70000]))
-        # an input CIGAR of the right total length but fragmented (realign recomputes it)
-        tags.append("cg:Z:%d=" % max(1, qe - qs))
+        # an input CIGAR of the right total length but fragmented (realign recomputes it); some records
+        # come without any cg:Z: field
+        if rng.random() >= 0.08:
+            tags.append("cg:Z:%d=" % max(1, qe - qs))
+        # GraphAligner-style read names with a description after a space (the parser cuts it off)
+        gaf_name = name + (" len=%d/1" % len(read) if rng.random() < 0.08 else "")
         gaf_lines.append(
-            "\t".join([name, str(len(read)), str(qs), str(qe), "+", path, str(plen), str(ps), str(pe), str(qe - qs), str(max(qe - qs, pe - ps)), "60"] + tags)
+            "\t".join([gaf_name, str(len(read)), str(qs), str(qe), "+", path, str(plen), str(ps), str(pe), str(qe - qs), str(max(qe - qs, pe - ps)), "60"] + tags)
         )
         fasta_lines.append(">%s\n%s" % (name, read))
     return {
@@ -146,7 +150,7 @@ def drop_records(wl, keep):
     gl, fl, names = [], [], []
     for new_i, i in enumerate(keep):
         cols = gaf[i].split("\t")
-        old = cols[0]
+        old = cols[0].split(" ")[0]
         cols[0] = "r%d" % new_i
         gl.append("\t".join(cols))
         fl.append(">r%d\n%s" % (new_i, reads[old]))
@@ -161,13 +165,18 @@ def drop_records(wl, keep):
     }
 
 
-def write_workload(wl, directory, bgzf=False):
+def write_workload(wl, directory, bgzf=False, gz_graph=False):
     """Writes graph.gfa, aln.gaf(.gz), reads.fa (+ .fai via pysam on first open). Returns paths."""
     os.makedirs(directory, exist_ok=True)
     gfa = os.path.join(directory, "graph.gfa")
     fasta = os.path.join(directory, "reads.fa")
-    with open(gfa, "w") as f:
-        f.write(wl["gfa"])
+    if gz_graph:
+        gfa = os.path.join(directory, "graph.gfa.gz")
+        with gzip.open(gfa, "wt") as f:
+            f.write(wl["gfa"])
+    else:
+        with open(gfa, "w") as f:
+            f.write(wl["gfa"])
     with open(fasta, "w") as f:
         f.write(wl["fasta"])
     fai = fasta + ".fai"
